@@ -37,7 +37,7 @@ def _refkey(r: Any) -> Tuple[bytes, int]:
     return (r.hash, r.index)
 
 
-def spend_twice(twin: bool = False, real: bool = False):
+def spend_twice(ncalls: int = 2, twin: bool = False, real: bool = False):
     import skepticoin.wallet  # noqa  (must be loaded before the ideal ecdsa is installed)
     W = World(real=real, served_head="P")
     dt, cons = W.dt, W.cons
@@ -49,10 +49,15 @@ def spend_twice(twin: bool = False, real: bool = False):
         from symlib.stubs.idealsig import make_key
         return make_key(i)[1]
 
-    def check_spend_twice(v0: int, v1: int, v2: int, a1: int, f1: int, a2: int, f2: int, u0: bool, u1: bool, u2: bool) -> bool:
+    def check_spend_twice(v0: int, v1: int, v2: int, a1: int, f1: int, a2: int, f2: int, u0: bool, u1: bool, u2: bool,
+                          a3: int = 1, f3: int = 0) -> bool:
         """
         post: _
         """
+        if ncalls < 3 and not (a3 == 1 and f3 == 0):
+            return True
+        if not (1 <= a3 <= 2 * 10 ** 15 and 0 <= f3 <= 2 * 10 ** 15):
+            return True
         for v in (v0, v1, v2):
             if not (1 <= v <= 6 * 10 ** 14):
                 return True
@@ -70,7 +75,7 @@ def spend_twice(twin: bool = False, real: bool = False):
             if u:
                 wallet.spent_transaction_outputs.add(r)
         recipient, change = W.keys[2], W.keys[3]
-        for (amount, fee) in ((a1, f1), (a2, f2)):
+        for (amount, fee) in ((a1, f1), (a2, f2), (a3, f3))[:ncalls]:
             used_before = [_refkey(r) for r in wallet.spent_transaction_outputs]
             available = 0
             for (r, v) in owned:
@@ -121,13 +126,17 @@ def spend_twice(twin: bool = False, real: bool = False):
                 return False
         return True
 
-    return check_spend_twice, {"v0": 10, "v1": 10, "v2": 5, "a1": 7, "f1": 3, "a2": 100, "f2": 0, "u0": False, "u1": False, "u2": False}
+    return check_spend_twice, {"v0": 10, "v1": 10, "v2": 5, "a1": 7, "f1": 3, "a2": 100, "f2": 0, "u0": False, "u1": False, "u2": False,
+                               "a3": 1, "f3": 0}
 
 
 def obligations(tier: str, known: List[str]) -> List[Ob]:
     T = 1800 if tier == "thorough" else 900
-    o = Ob("two-successive-requests", C_OK + "; " + C_FAIL, "spend_twice", {}, timeout=T)
-    return [o, twin_of(o, timeout=300)]
+    o = Ob("two-successive-requests", C_OK + "; " + C_FAIL, "spend_twice", {"ncalls": 2}, timeout=T)
+    obs = [o, twin_of(o, timeout=300)]
+    if tier == "thorough":
+        obs.append(Ob("three-successive-requests", C_OK + "; " + C_FAIL, "spend_twice", {"ncalls": 3}, timeout=3000))
+    return obs
 
 
 def _classify(ob: Ob, model, detail: str):
